@@ -571,16 +571,28 @@ def _any(xs):
     return any(xs)
 
 
+_FLOAT_OF_INT = {1: 2, 2: 2, 3: 3, 4: 4}  # first shipped Qfixed type with that many integer bits
+
+
 def _int(x):
     if isinstance(x, U):
         return x
     if isinstance(x, F):
-        raise Unsupported("int(fixed)")
+        if x.i < 2:
+            raise Unsupported("int() of a fixed type with one integer bit")
+        ST.nonring = True
+        return U(int(x.v), x.i)
     raise TypeError("int() of non-number")
 
 
 def _float(x):
-    raise Unsupported("float()")
+    if isinstance(x, F):
+        return x
+    if isinstance(x, U):
+        if x.w not in _FLOAT_OF_INT:
+            raise Unsupported("float() of a wide int")
+        return F(x.v, x.w, _FLOAT_OF_INT[x.w])
+    raise TypeError("float() of non-number")
 
 
 def _ord(x):
